@@ -9,7 +9,8 @@
 (*   {"ev":"reset"}                        fresh tree, fresh state file         *)
 (*   {"ev":"batch","n":k,"agg":..,"attr":..}  the next k records were handed    *)
 (*                                         over; aggregate and attribution now  *)
-(*   {"ev":"restart","agg":..}             state read back from the file        *)
+(*   {"ev":"restart","agg":..[,"err":..]}  state read back from the file (err:  *)
+(*                                         it could not be read; the run ends)  *)
 (*   {"ev":"final"}                        end of the run: the first run of a   *)
 (*                                         stream is the reference the others   *)
 (*                                         are compared with (BatchIndep)       *)
@@ -61,7 +62,9 @@ TRestart ==
     /\ Consume("restart")
     /\ LET a == ToAgg(Ev.agg) IN
            /\ agg' = a
-           /\ verdict' = IF "err" \in DOMAIN Ev THEN "Error" ELSE RoundTripLaw(agg, a)
+           \* a state file that cannot be read back loses every total that had been written
+           /\ verdict' = IF "err" \in DOMAIN Ev THEN (IF agg = EmptyAgg THEN "ok" ELSE "RoundTrip-Unreadable")
+                         ELSE RoundTripLaw(agg, a)
     /\ through' = TRUE
     /\ UNCHANGED <<fam, pos, hist, refSet, ref, refThrough>>
 
